@@ -201,7 +201,9 @@ class World:
                     self.oid(g[k])
             elif op == "iop":
                 x = O[a["o"] - 1]
-                y = O[a["rhs"] - 1] if a["rhs"] else (2 if self.nstep % 2 else 2.0)
+                y = O[a["rhs"] - 1] if a["rhs"] > 0 else (2 if self.nstep % 2 else 2.0)
+                if a["rhs"] < 0:
+                    y = getattr(x, "xyz"[-a["rhs"] - 1])        # one of x's own components
                 if a["rhs"] == 0 and x.dtype.kind == "i":
                     y = 2
                 if a.get("q"):
